@@ -30,8 +30,18 @@ pub type V9FieldPair = (V9Field, FieldValue);
 
 impl V9Parser {
     pub fn parse(&mut self, packet: &[u8]) -> Result<ParsedNetflow, NetflowParseError> {
+        self.parse_slice(packet)
+            .map(|(remaining, result)| ParsedNetflow::new(remaining, result))
+    }
+
+    /// Same as `parse`, but hands back the unparsed tail as a slice of the input instead of
+    /// copying it (the chained-packet loop of `parse_bytes` only needs to know where it starts).
+    pub(crate) fn parse_slice<'a>(
+        &mut self,
+        packet: &'a [u8],
+    ) -> Result<(&'a [u8], NetflowPacket), NetflowParseError> {
         V9::parse(packet, self)
-            .map(|(remaining, v9)| ParsedNetflow::new(remaining, NetflowPacket::V9(v9)))
+            .map(|(remaining, v)| (remaining, NetflowPacket::V9(v)))
             .map_err(|e| {
                 NetflowParseError::Partial(PartialParse {
                     version: 9,
